@@ -1,6 +1,7 @@
 package main
 
 import (
+	"encoding/json"
 	"flag"
 	"fmt"
 	"os"
@@ -30,6 +31,7 @@ func main() {
 	flag.StringVar(&flagOnly, "only", "", "only report the obligation with this key")
 	flag.BoolVar(&flagDebug, "debug", false, "debug output")
 	dump := flag.String("dump", "", "debug: dump events of root function NAME")
+	descr := flag.Bool("descriptor", false, "print the format descriptor of -repo as JSON (used once to freeze golden/format.json from the pinned release)")
 	flag.Parse()
 	if *tier == "" {
 		*tier = os.Getenv("VERIF_TIER")
@@ -49,6 +51,13 @@ func main() {
 		}
 	}()
 
+	verifDir = *verif
+	if *descr {
+		p := Load(*repo, nil, false)
+		b, _ := json.MarshalIndent(formatDescriptor(p), "", " ")
+		fmt.Println(string(b))
+		return
+	}
 	if *dump != "" {
 		p := Load(*repo, nil, false)
 		dumpRoot(p, *dump)
